@@ -103,6 +103,10 @@ SPECS = {
     # read those attributes per object
     "cat_all": "special", "cat_in": "special", "cat_has": "special", "cat_flat": "special",
     "sq_part": "special", "sq_nested": "special", "cc_alone": "special", "cc_or": "special", "cc_and": "special",
+    # ... and with DIFFERENT selections: a two-variable condition object under entity(x) and under set_of([x, y]); a
+    # sub-query object as an operand in a query over x and in a query over x and z
+    "cd_x": "special", "cd_xy": "special", "sd_x": "special", "sd_xz": "special",
+    "rule_late": "special",
     "iter": "special",
     "rule": "special",
     "rule_ref": "special",
@@ -111,11 +115,12 @@ USER_CODE = {"pred": "p_eq", "pcls": "PEq", "meth": "is_p", "indep_pred": "p_eq"
 POOLS = {
     "A": ("join", "or_same", "union", "negand", "xonly", "indep"),
     "B": ("pred", "pcls", "meth", "and_unions", "indep_pred"),
-    "C": ("the1", "the2", "dup", "dupjoin", "iter", "rule", "rule_ref"),
+    "C": ("the1", "the2", "dup", "dupjoin", "iter", "rule", "rule_ref", "rule_late"),
     "D": ("fl_pe", "fl_e", "fl_the", "fl_pred", "fl_all"),
     "E": ("nd_k", "nd_join", "nd_rule", "nd_o"),
     "F": ("sh_cond", "sh_val", "sh_sel", "sh_valne"),
     "G": ("sq_part", "sq_nested", "cc_alone", "cc_or", "cc_and"),
+    "I": ("cd_x", "cd_xy", "sd_x", "sd_xz"),
     "H": ("cat_all", "cat_in", "cat_has", "cat_flat"),
 }
 
@@ -127,7 +132,8 @@ def alphabet(pool):
             ops.append(("F", name))
             continue
         ops += [("F", name), ("T1", name), ("K1", name)]
-        if name in ("join", "union", "and_unions", "dupjoin", "rule", "iter", "indep", "indep_pred", "nd_join", "nd_rule"):
+        if name in ("join", "union", "and_unions", "dupjoin", "rule", "iter", "indep", "indep_pred", "nd_join", "nd_rule",
+                    "rule_late", "cd_xy", "sd_xz"):
             ops.append(("T2", name))
         if name in ("fl_pe", "fl_all"):
             ops += [("T2", name), ("T3", name), ("T5", name)]
@@ -170,6 +176,18 @@ class Pool:
             self.b.env["xi"] = xi
             with symbolic_mode():
                 self.q["iter"] = an(entity(xi, xi.p >= 2))
+        if pool == "I":
+            one, two, three = inst.v(1), inst.v(2), inst.v(3)
+            xi_, yi_ = let(W.Item, self.world["DA"]), let(W.Item, self.world["DB"])
+            x3, y3, z3 = (let(W.Item, self.world["DB"]) for _ in range(3))
+            with symbolic_mode():
+                cd = or_(xi_.p == yi_.q, xi_.p == three)           # one condition object over two variables
+                self.q["cd_x"] = an(entity(xi_, cd))
+                self.q["cd_xy"] = an(set_of([xi_, yi_], cd))
+                sub = an(entity(y3, or_(and_(y3.p == z3.p, y3.q != one), y3.q == z3.q)))     # one sub-query object
+                self.q["sd_x"] = an(entity(x3, sub.p == x3.p))
+                self.q["sd_xz"] = an(set_of([x3, z3], sub.p == x3.p))
+            self.cd_sel = {"cd_xy": (xi_, yi_), "sd_xz": (x3, z3)}
         if pool == "H":
             from entity_query_language import concatenate, flatten, in_, contains
             xl, el = let(W.Item, self.world["DL"]), let(W.Item, self.world["DE"])
@@ -234,6 +252,19 @@ class Pool:
                 with refinement(x.q == y.q):
                     Add(views2, W.Made(a=x, b=y, c=2))
             self.q["rule_ref"] = rq2
+            # a tree whose base has no conclusion of its own (as in the repository's "better rule tree" tests) and whose
+            # FIRST domain objects match the base but fire no branch: nothing is concluded for them
+            with symbolic_mode():
+                views3 = let(W.View)
+                rq3 = infer(entity(views3, x.p >= inst.v(1)))
+            with rule_mode(rq3):
+                with refinement(x.q >= inst.v(2)):
+                    Add(views3, W.Made(a=x, c=1))
+                    with alternative(x.q == inst.v(5)):
+                        Add(views3, W.Made(a=x, c=3))
+                with alternative(x.p == inst.v(5)):
+                    Add(views3, W.Made(a=x, c=2))
+            self.q["rule_late"] = rq3
 
     def _snap(self):
         def frozen(v):
@@ -265,6 +296,8 @@ class Pool:
             return [tuple(Q.norm(r[s]) for s in self.sh_sel) for r in rows]
         if name == "cc_and":
             return [tuple(Q.norm(r[s]) for s in self.cc_sel) for r in rows]
+        if name in ("cd_xy", "sd_xz"):
+            return [tuple(Q.norm(r[s]) for s in self.cd_sel[name]) for r in rows]
         if name in ("cat_has", "cat_flat"):
             return [tuple(Q.norm(r[s]) for s in self.cat_sel[name]) for r in rows]
         if name == "cat_all":
@@ -345,13 +378,13 @@ def same(name, got, exp):
             or (isinstance(exp, tuple) and exp and exp[0] == "value"):
         return got == exp
     spec = SPECS[name]
-    if name == "cc_and":
+    if name in ("cc_and", "cd_xy", "sd_xz", "cd_x", "sd_x"):
         return set(got) == set(exp)
     if name.startswith(("sq_", "cc_")):
         # pool G: the statement promises the same result SET; with a condition object shared by several queries the order in
         # which a warm cache replays its rows depends on which query filled it first (each row still exactly once)
         return sorted(map(repr, got)) == sorted(map(repr, exp))
-    if name in ("rule", "rule_ref", "fl_pe", "fl_pred", "fl_all", "nd_rule", "nd_join", "sh_sel", "cat_flat", "cat_has"):     # one row per (parent, occurrence): multiset
+    if name in ("rule", "rule_ref", "rule_late", "fl_pe", "fl_pred", "fl_all", "nd_rule", "nd_join", "sh_sel", "cat_flat", "cat_has"):     # one row per (parent, occurrence): multiset
         return sorted(map(repr, got)) == sorted(map(repr, exp))
     if spec == "special" or spec[2] == "entity" or name == "dupjoin":
         return got == exp if name != "dupjoin" else sorted(map(repr, got)) == sorted(map(repr, exp))
@@ -409,6 +442,16 @@ def describe(case, inst):
             lines.append(f"{name}: " + Q.up_query(spec, inst))
         elif name == "iter":
             lines.append("iter: xi = let(Item, iter(DA)); q = an(entity(xi, xi.p >= 2))")
+        elif name in ("cd_x", "cd_xy", "sd_x", "sd_xz"):
+            lines.append({
+                "cd_x": "x = let(Item, DA); y = let(Item, DB); cd = or_(x.p == y.q, x.p == 3)   # ONE condition object\ncd_x: an(entity(x, cd))",
+                "cd_xy": "cd_xy: an(set_of([x, y], cd))",
+                "sd_x": "x3, y3, z3 = let(Item, DB) x 3; sub = an(entity(y3, or_(and_(y3.p == z3.p, y3.q != 1), y3.q == z3.q)))   # ONE sub-query object\nsd_x: an(entity(x3, sub.p == x3.p))",
+                "sd_xz": "sd_xz: an(set_of([x3, z3], sub.p == x3.p))"}[name])
+        elif name == "rule_late":
+            lines.append("rule_late: q = infer(entity(views3 := let(View), x.p >= 1)); with rule_mode(q):\\n    with refinement(x.q >= 2): "
+                         "Add(views3, Made(a=x, c=1)); with alternative(x.q == 5): Add(views3, Made(a=x, c=3))\\n    "
+                         "with alternative(x.p == 5): Add(views3, Made(a=x, c=2))   # the base itself concludes nothing")
         elif name.startswith("cat_"):
             lines.append({
                 "cat_all": "xl = let(Item, DL); el = let(Item, DE)\ncat_all: an(entity(concatenate(xl.items)))",
